@@ -46,6 +46,7 @@ def run(ck, fb):
     r05i(ck, fb)
     r05j(ck, fb)
     r05k(ck, fb)
+    r05m(ck, fb)
     ck.borrow('rules.c01', {'R01v': 'R05l'}, 'the catalogue record carries every saved node address and member, whatever else the record says')
     ck.borrow('rules.c08', {'R08b': 'R05f'}, 'membership/addresses of an installed snapshot reach the index file')
 
@@ -504,3 +505,32 @@ def r05k(ck, fb, R='R05k'):
     n2, p2 = from_arm('InstallSnapshot')
     ck.require(p2 is not None, R, 'InstallSnapshot:SaveMember', h.where(),
                'the install path no longer reaches SaveMember (membership of the leader\'s snapshot is not saved), or the matcher lost its anchor')
+
+
+def r05m(ck, fb, R='R05m'):
+    ck.rule(R, 'a save never takes away what another save stored: the catalogue writers of RaftIndexManager change node_addrs / member lists only by '
+               'assigning the value they were given or by inserting - no retain / remove / clear / drain / truncate on a field of raft_index. '
+               'Pruning addresses "of nodes that are in no configuration" deletes the address of a node whose NodeAddr entry was applied before the '
+               'Members entry that adds it (two nodes joining at once): the peer is forgotten, in the same process and after a restart')
+    n = 0
+    for fn in FUNNEL:
+        b = fb.bodies.get(IM + fn)
+        if b is None:
+            continue
+        n += 1
+        bad = []
+        for x in util.region(fb, b):
+            for s0 in x.calls(r'::(retain|remove|clear|drain|truncate|pop|swap_remove|remove_entry|split_off|dedup)$'):
+                rf = util.recv_fields(x, s0)
+                ty = ''
+                from rn.facts import op_place, pl_local
+                p = op_place(s0.args[0]) if s0.args else None
+                if p is not None:
+                    ty = x.local_ty(pl_local(p)) or ''
+                if any(f in ('node_addrs', 'member', 'member_after_consensus', 'logs', 'snapshots', 'raft_index') for f in rf) or \
+                        (x is not b and x.parent) or re.search(r'HashMap<u64, .*Arc<.*String|Vec<u64>', ty):
+                    bad.append(s0)
+        ck.require(not bad, R, '%s:keeps-what-was-saved' % fn, bad[0].where() if bad else b.where(),
+                   '%s removes entries from the catalogue (%s): an address / member that an earlier, acknowledged save stored and no later save '
+                   'replaced is gone' % (fn, sorted(set(s0.callee.split('::')[-1] for s0 in bad))), 'assign / insert only')
+    ck.floor(R, 'catalogue writers', n, 6)
